@@ -304,10 +304,17 @@ func (c *columnKey) Apply(chunk commit.Chunk, r *commit.Reader) {
 			c.lock.Unlock()
 
 		case commit.Delete:
+
+			// Only a row that holds a key has one to give up, and only if it still resolves
+			// to this row (the slot of a row without a key reads as the empty key)
+			if fill.Contains(uint32(offset)) {
+				c.lock.Lock()
+				if at, ok := c.seek[data[offset]]; ok && at == uint32(r.Offset) {
+					delete(c.seek, data[offset])
+				}
+				c.lock.Unlock()
+			}
 			fill.Remove(uint32(offset))
-			c.lock.Lock()
-			delete(c.seek, string(data[offset]))
-			c.lock.Unlock()
 		}
 	}
 }
